@@ -290,7 +290,7 @@ theorem datatypes_write_law (wire : JVal F → JVal F) (hwire : ∀ j, StrictJ j
     ∃ j v', (dtCodecs wire dt cdt).clientExport v = some j ∧
       (dtCodecs wire dt cdt).nodeImport ((dtCodecs wire dt cdt).wire j) = some v' ∧ PyEq v' v := by
   obtain ⟨j, v', h1, _, h3, _, h4, h5⟩ := wire_core dt v hwf hv hb
-  refine ⟨j, v', ?_, ?_, h5⟩
+  refine ⟨j, v', ?_, ?_, h5.1⟩
   · simp [dtCodecs, export_clientOf dt cdt v hc, h1]
   · simp [dtCodecs, hwire j h3, h4]
 
@@ -301,7 +301,7 @@ theorem datatypes_read_law (wire : JVal F → JVal F) (hwire : ∀ j, StrictJ j 
     (hdts : dictGet dts (m, p) = some cdt) (r : PVal F) (hr : Valid dt r) :
     ∃ r', dtImp dts m p ((dtCodecs wire dt cdt).wire ((dtCodecs wire dt cdt).nodeExport r)) = some r' ∧ PyEq r' r := by
   obtain ⟨j, r', h1, _, h3, _, h4, h5⟩ := wire_core dt r hwf hr hb
-  refine ⟨r', ?_, h5⟩
+  refine ⟨r', ?_, h5.1⟩
   simp [dtCodecs, dtImp, hdts, h1, hwire j h3, import_clientOf dt cdt j hc, h4]
 
 /-- **e2e_write_datatypes**: second sentence of C12 with the datatype model as codec — for every well-formed datatype
